@@ -15,7 +15,7 @@ let show_owner (o : owner) : string =
 let show_ret = function
   | RNil -> "nil" | ROwner o -> show_owner o | RUnit -> "ok" | RBool b -> if b then "T" else "F"
 
-type pop = POp of op | PShard of key | PMake of int * int * n list | PCount
+type pop = POp of op | PShard of key | PMake of int * int * n list | PCount | PReread | PScribble
 
 (* parse one op at the head of the token list *)
 let parse_op (toks : string list) : pop * string list =
@@ -28,6 +28,8 @@ let parse_op (toks : string list) : pop * string list =
   | "s" :: k :: r -> (PShard (key_of_tok k), r)
   | "m" :: s :: c :: m :: r -> (PMake (int_of_string s, int_of_string c, bytes_of_hex m), r)
   | "n" :: r -> (PCount, r)
+  | "v" :: r -> (PReread, r)
+  | "w" :: r -> (PScribble, r)
   | t :: _ -> failwith ("bad op " ^ t)
   | [] -> failwith "missing op"
 
@@ -46,6 +48,8 @@ let count_reg (reg : registry) : string =
 let run_seq (toks : string list) (impl : string list) : string =
   let seen = Hashtbl.create 8 in
   let impl = Array.of_list impl in
+  (* returned *Owner values are copies: what a caller holds never changes and cannot change the table *)
+  let last = ref "nil" in
   let rec go reg toks acc =
     match toks with
     | [] -> List.rev acc
@@ -53,7 +57,12 @@ let run_seq (toks : string list) (impl : string list) : string =
       let (o, rest) = parse_op toks in
       let pos = List.length acc in
       (match o with
-       | POp op -> let (reg', r) = reg_step reg op in go reg' rest (show_ret r :: acc)
+       | POp op ->
+         let (reg', r) = reg_step reg op in
+         (match op, r with (OClaim _ | OLookup _), ROwner _ -> last := show_ret r | _ -> ());
+         go reg' rest (show_ret r :: acc)
+       | PReread -> go reg rest (("v:" ^ !last) :: acc)
+       | PScribble -> last := "nil"; go reg rest ("w" :: acc)
        | PShard k ->
          let mine = "s" ^ string_of_int (int_of_n (shard_for k)) in
          let theirs = if pos < Array.length impl then impl.(pos) else "" in
@@ -72,18 +81,46 @@ let run_seq (toks : string list) (impl : string list) : string =
   | l -> String.concat " " l
 
 (* ---- the callers (ipoe claimTuple/releaseTuple, pppoe addToIndexes/removeFromIndexes) ---- *)
-let run_callers (self : bytes) (toks : string list) : string =
+(* A call-site invocation (C / R) may be "gated": an interloper Claim/Release of another party ran
+   immediately before the call site's j-th registry call (tag g) or after it returned (tag a).  The
+   call site is required to behave as ONE atomic registry operation: the observed (events, interloper
+   result) must be explained by the interloper taking effect entirely before or entirely after it
+   (only "after" when it ran after the return, only "before" when j = 0 and it fired inside).  The
+   implementation's token decides which order the model continues from; if neither order explains it
+   the model prints its own "after" answer with a trailing !nonatomic. *)
+let run_callers (self : bytes) (toks : string list) (impl : string list) : string =
+  let impl = Array.of_list impl in
+  let pending = ref None in
   let rec go reg toks acc =
+    let pos = List.length acc in
+    let theirs = if pos < Array.length impl then impl.(pos) else "" in
     match toks with
     | [] -> List.rev acc
+    | "G" :: j :: kind :: k :: p :: sd :: rest ->
+      let k = key_of_tok k in
+      let o = { o_proto = bytes_of_hex p; o_sid = bytes_of_hex sd; o_key = k } in
+      pending := Some (int_of_string j, (if kind = "x" then OClaim (k, o) else ORelease (k, o)));
+      go reg rest ("armed" :: acc)
     | ("C" | "R" as kind) :: s :: c :: m :: sid :: mixed :: rest ->
       let s = n_of_int (int_of_string s) and c = n_of_int (int_of_string c) in
       let m = bytes_of_hex m and sid = bytes_of_hex sid and mixed = (mixed = "1") in
-      if kind = "C" then begin
-        let (reg', evs) = caller_claim self mixed reg s c m sid in
-        let txt = String.concat "," (List.map (fun (sd, k) -> hex_of_bytes sd ^ "@" ^ show_key k) evs) in
-        go reg' rest (("ev[" ^ txt ^ "]") :: acc)
-      end else go (caller_release self mixed reg s c m sid) rest ("ok" :: acc)
+      let site reg =
+        if kind = "C" then begin
+          let (reg', evs) = caller_claim self mixed reg s c m sid in
+          let txt = String.concat "," (List.map (fun (sd, k) -> hex_of_bytes sd ^ "@" ^ show_key k) evs) in
+          (reg', "ev[" ^ txt ^ "]")
+        end else (caller_release self mixed reg s c m sid, "ok") in
+      (match !pending with
+       | None -> let (reg', t) = site reg in go reg' rest (t :: acc)
+       | Some (j, iop) ->
+         pending := None;
+         let before tag = let (r1, ri) = reg_step reg iop in let (r2, t) = site r1 in (r2, t ^ "/" ^ tag ^ ":" ^ show_ret ri) in
+         let after tag = let (r1, t) = site reg in let (r2, ri) = reg_step r1 iop in (r2, t ^ "/" ^ tag ^ ":" ^ show_ret ri) in
+         let cands =
+           (if j = 0 then [before "g"] else [before "g"; after "g"]) @ [after "a"] in
+         (match List.find_opt (fun (_, t) -> t = theirs) cands with
+          | Some (r, t) -> go r rest (t :: acc)
+          | None -> let (r, t) = after "a" in go r rest ((t ^ "!nonatomic") :: acc)))
     | "Z" :: _ :: _ :: _ :: _ :: _ :: rest -> go reg rest ("ev[]" :: acc)   (* exclusivity == nil: no effect *)
     | "x" :: k :: p :: sd :: rest ->
       let k = key_of_tok k in
@@ -248,6 +285,7 @@ let () =
   let lines = read_lines Sys.argv.(1) in
   let impl = if Array.length Sys.argv > 2 && Sys.argv.(2) <> "-" then read_lines Sys.argv.(2) else [] in
   let impl = Array.of_list impl in
+  (* Repaired = /repo HEAD (since 94649ad); "defective" only for replaying the historical witness by hand *)
   let variant = if Array.length Sys.argv > 3 && Sys.argv.(3) = "defective" then Defective else Repaired in
   List.iteri (fun idx line ->
       let out =
@@ -267,8 +305,8 @@ let () =
             else if String.length v >= 6 && String.sub v 0 6 = "NONLIN" then "rejected"
             else "malformed"
           | "e2e" :: rest -> run_e2e variant rest
-          | "ipoe" :: rest -> run_callers proto_ipoe rest
-          | "pppoe" :: rest -> run_callers proto_pppoe rest
+          | "ipoe" :: rest -> run_callers proto_ipoe rest (if idx < Array.length impl then tokens impl.(idx) else [])
+          | "pppoe" :: rest -> run_callers proto_pppoe rest (if idx < Array.length impl then tokens impl.(idx) else [])
           | "seq" :: rest -> run_seq rest (if idx < Array.length impl then tokens impl.(idx) else [])
           | ("conc" | "rconc") :: rest ->
             if idx < Array.length impl then begin
